@@ -26,16 +26,17 @@ func TestAAAWitnesses(t *testing.T) { vk.TestWitnesses(t, property) }
 func TestReplay(t *testing.T)       { vk.TestReplay(t) }
 
 type Op struct {
-	Kind    string // req | adv | logout (DeleteToken)
-	Client  int    `json:",omitempty"`
-	Method  string `json:",omitempty"`
-	Cookie  string `json:",omitempty"` // own | none | forged | other | dead
-	Token   string `json:",omitempty"` // same (as cookie) | none | forged | other | dead | own (the client's token even if the cookie sent differs)
-	Pick    int    `json:",omitempty"`
-	Scheme  string `json:",omitempty"`
-	Origin  string `json:",omitempty"`
-	Referer string `json:",omitempty"`
-	Dt      int    `json:",omitempty"`
+	Kind        string // req | adv | logout (DeleteToken)
+	Client      int    `json:",omitempty"`
+	Method      string `json:",omitempty"`
+	Cookie      string `json:",omitempty"` // own | none | forged | other | dead
+	Token       string `json:",omitempty"` // same (as cookie) | none | forged | other | dead | own (the client's token even if the cookie sent differs)
+	Pick        int    `json:",omitempty"`
+	Scheme      string `json:",omitempty"`
+	Origin      string `json:",omitempty"`
+	Referer     string `json:",omitempty"`
+	Dt          int    `json:",omitempty"`
+	FailConsume bool   `json:",omitempty"` // session backend without the session middleware, single-use: the session store's storage refuses the write that records the consumption
 }
 
 type Case struct {
@@ -113,9 +114,11 @@ func check(c Case) vk.Verdict {
 		KeyGenerator: func() string { ctr++; id := fmt.Sprintf("tok%d", ctr); issued[id] = true; return id }}
 	if c.OwnEH {
 		// the usual custom error handler: it writes the answer itself (and so returns nil)
-		cfg.ErrorHandler = func(ctx fiber.Ctx, _ error) error { return ctx.Status(fiber.StatusForbidden).SendString("denied by the application") }
+		cfg.ErrorHandler = func(ctx fiber.Ctx, _ error) error {
+			return ctx.Status(fiber.StatusForbidden).SendString("denied by the application")
+		}
 	}
-	var st *vk.Storage
+	var st, sst *vk.Storage // token storage (storage backends) / the session store's storage (session backend)
 	var sessStore *session.Store
 	var sessMW fiber.Handler
 	sctr := 0
@@ -132,7 +135,8 @@ func check(c Case) vk.Verdict {
 		}
 		cfg.Storage = st
 	case "session":
-		sessMW, sessStore = session.NewWithStore(session.Config{KeyGenerator: func() string { sctr++; return fmt.Sprintf("sess%d", sctr) }})
+		sst = vk.NewStorage()
+		sessMW, sessStore = session.NewWithStore(session.Config{Storage: sst, KeyGenerator: func() string { sctr++; return fmt.Sprintf("sess%d", sctr) }})
 		cfg.Session = sessStore
 		cfg.IdleTimeout = time.Hour
 	}
@@ -296,6 +300,12 @@ func check(c Case) vk.Verdict {
 		}
 		ran = false
 		ctrBefore := ctr
+		sessSetFault := false
+		if op.FailConsume && sst != nil && c.SessNoMW && c.SingleUse && !safe {
+			// the session store's storage refuses the next write: the consumption of the token cannot be recorded
+			sst.FailNextSet()
+			sessSetFault = true
+		}
 		var resp *fasthttp.RequestCtx
 		if c.Conn {
 			resp = conn.DoBody(app, op.Method, uri, body, hdr...)
@@ -418,6 +428,9 @@ func check(c Case) vk.Verdict {
 		if getFault {
 			return vk.Failf("%s: the token store failed on lookup but the request reached the handler", ctx)
 		}
+		if sessSetFault {
+			return vk.Failf("%s: the session that holds the single-use token could not be saved (its storage refused the write: the token stays usable) but the request reached the handler", ctx)
+		}
 		if delFault && c.SingleUse {
 			return vk.Failf("%s: the token store failed to delete the single-use token (it stays usable) but the request reached the handler", ctx)
 		}
@@ -503,6 +516,7 @@ func genCase(t *rapid.T) Case {
 				Cookie: rapid.SampledFrom([]string{"own", "own", "own", "own", "none", "forged", "other", "dead"}).Draw(t, "cookie"),
 				Token:  rapid.SampledFrom([]string{"same", "same", "same", "same", "none", "forged", "other", "dead", "own", "own"}).Draw(t, "token"),
 				Pick:   rapid.IntRange(0, 5).Draw(t, "pick"), Scheme: rapid.SampledFrom([]string{"http", "https"}).Draw(t, "scheme")}
+			op.FailConsume = rapid.IntRange(0, 3).Draw(t, "failconsume") == 0
 			op.Origin = strings.ReplaceAll(rapid.SampledFrom(origins).Draw(t, "origin"), "SCHEME", op.Scheme)
 			op.Referer = strings.ReplaceAll(rapid.SampledFrom(referers).Draw(t, "referer"), "SCHEME", op.Scheme)
 			c.Ops = append(c.Ops, op)
